@@ -363,7 +363,7 @@ var c15KnownFns = map[string]bool{"ip": true, "decimal": true, "datetime": true,
 	"offset": true, "durationSince": true, "toDays": true, "toHours": true, "toMinutes": true, "toSeconds": true, "toMilliseconds": true}
 
 // c15Classify computes the narrow class of an accepted policy's run-time failure from the input alone.
-func c15Classify(strict bool, p *ast.Policy, whole ast.IsNode, env eval.Env, kind string) string {
+func c15Classify(sch *vh.C15Schema, strict bool, p *ast.Policy, whole ast.IsNode, env eval.Env, kind string) string {
 	origin := c15Origin(whole, env)
 	// (1) `<` family on two *different* comparable types: each side alone passes the validator's "comparable" test
 	var cl, cr ast.IsNode
@@ -459,6 +459,94 @@ func c15Classify(strict bool, p *ast.Policy, whole ast.IsNode, env eval.Env, kin
 		}
 		if hit {
 			return "permissive-record-lub-drops-attr"
+		}
+	}
+	// (6) permissive: `hasTag` on an entity LUB of which only SOME elements declare tags is typed False
+	if !strict && sch != nil && sch.RS != nil {
+		hit := false
+		for _, cd := range p.Conditions {
+			c15Walk(cd.Body, func(n ast.IsNode) {
+				h, ok := n.(ast.NodeTypeHasTag)
+				if !ok {
+					return
+				}
+				vs := c15Variants(h.Left)
+				if len(vs) < 2 {
+					return
+				}
+				with, without := false, false
+				for _, a := range vs {
+					if v, k := c15Eval(a, env); k == "" {
+						if uid, ok := v.(types.EntityUID); ok {
+							if e, ok := sch.RS.Entities[uid.Type]; ok && e.Tags != nil {
+								with = true
+							} else {
+								without = true
+							}
+						}
+					}
+				}
+				if with && without {
+					hit = true
+				}
+			})
+		}
+		if hit {
+			return "hastag-lub-mixed-tags"
+		}
+	}
+	// (7) `in` whose left operand is an action entity but not syntactically `action` / an action literal, and whose right
+	// operand holds an action of ANOTHER action entity type the left one is a member of: the ENTITY-type hierarchy
+	// (where action types have no parents) folds the test to False
+	{
+		hit := false
+		isAct := func(t types.EntityType) bool { return t == "Action" || strings.HasSuffix(string(t), "::Action") }
+		for _, cd := range p.Conditions {
+			c15Walk(cd.Body, func(n ast.IsNode) {
+				in, ok := n.(ast.NodeTypeIn)
+				if !ok {
+					return
+				}
+				if v, ok := in.Left.(ast.NodeTypeVariable); ok && v.Name == "action" {
+					return
+				}
+				if _, ok := in.Left.(ast.NodeValue); ok {
+					return
+				}
+				lv, lk := c15Eval(in.Left, env)
+				rv, rk := c15Eval(in.Right, env)
+				res, k := c15Eval(in, env)
+				luid, ok := lv.(types.EntityUID)
+				if lk != "" || rk != "" || k != "" || !ok || !isAct(luid.Type) || res != types.Value(types.True) {
+					return
+				}
+				var targets []types.EntityUID
+				switch r := rv.(type) {
+				case types.EntityUID:
+					targets = append(targets, r)
+				case types.Set:
+					for e := range r.All() {
+						if u, ok := e.(types.EntityUID); ok {
+							targets = append(targets, u)
+						}
+					}
+				}
+				same := false
+				other := false
+				for _, t := range targets {
+					if t.Type == luid.Type {
+						same = true
+					} else if isAct(t.Type) {
+						other = true
+					}
+				}
+				if other && !same {
+					hit = true
+				}
+			})
+		}
+		if hit {
+			return "in-action-type-cross-namespace"
 		}
 	}
 	return "accepted-policy-fails-" + kind
@@ -578,7 +666,7 @@ func c15RunPolicy(c *vh.Ctx, st *c15Stats, s *vh.C15Schema, strict bool, pol vh.
 			}
 			if kind != "" && !c15Allowed[kind] {
 				st.failures++
-				class := c15Classify(strict, p, whole, env, kind)
+				class := c15Classify(s, strict, p, whole, env, kind)
 				c.Dist("failure:" + class)
 				// cross-check with what Authorize reports
 				azErr := false
@@ -679,12 +767,224 @@ func c15Corpus(c *vh.Ctx) {
 			}
 			whole := eval.PolicyToNode(p).AsIsNode()
 			if _, kind := c15Eval(whole, env); kind != "" && !c15Allowed[kind] {
-				class := c15Classify(strict, p, whole, env, kind)
+				class := c15Classify(s, strict, p, whole, env, kind)
 				c.Dist("failure:" + class)
 				c.Report(vh.Finding{Class: class, What: fmt.Sprintf("corpus %s: accepted (%s), evaluates to a %s error: %s", it.name, map[bool]string{true: "strict", false: "permissive"}[strict], kind, strings.TrimSpace(c15PolicyText(p))),
 					Check: "oracle", Op: "validate-then-eval", Input: c15Input(s, strict, p, req, ents), Expected: "ok or error in {overflow, entity, ext-*}", Actual: "err " + kind})
 			}
 		}
+	}
+}
+
+const c15CrossNsSchema = `
+entity A;
+entity B;
+action "grp";
+namespace NS { action "view" in [Action::"grp"] appliesTo { principal: [A], resource: [B], context: { n: Long } }; }
+`
+
+// c15EntityCorpus replays the failing inputs of the two findings of the entity extension of the Lean model
+// (C15_hasTag_mixed_counterexample, C15_action_cross_namespace_counterexample) on fixed schemas, both modes.
+func c15EntityCorpus(c *vh.Ctx) {
+	type probe struct {
+		name, schema, policy string
+		req                  types.Request
+		ents                 types.EntityMap
+	}
+	u, d := types.NewEntityUID("User", "u"), types.NewEntityUID("Doc", "d")
+	act, grp := types.NewEntityUID("Action", "view"), types.NewEntityUID("Action", "grp")
+	ctx1 := types.NewRecord(types.RecordMap{"a.b": types.NewRecord(types.RecordMap{}), "a": types.NewRecord(types.RecordMap{"b": types.NewRecord(types.RecordMap{})}), "n": types.Long(3)})
+	a, b := types.NewEntityUID("A", "a"), types.NewEntityUID("B", "b")
+	nsAct := types.NewEntityUID("NS::Action", "view")
+	ctx2 := types.NewRecord(types.RecordMap{"n": types.Long(3)})
+	probes := []probe{
+		{name: "hastag-mixed", schema: c15CorpusSchema,
+			policy: `permit(principal, action, resource) when { if (if context.n > 0 then principal else resource).hasTag("k") then (1 + "a") == 2 else true };`,
+			req:    types.Request{Principal: u, Action: act, Resource: d, Context: ctx1},
+			ents: types.EntityMap{
+				u:   types.Entity{UID: u, Attributes: types.NewRecord(types.RecordMap{"name": types.String("n"), "col": types.NewEntityUID("Color", "red")}), Tags: types.NewRecord(types.RecordMap{"k": types.Long(1)})},
+				d:   types.Entity{UID: d, Attributes: types.NewRecord(types.RecordMap{"owner": u})},
+				act: types.Entity{UID: act, Parents: types.NewEntityUIDSet(grp)},
+				grp: types.Entity{UID: grp},
+			}},
+		{name: "in-cross-namespace", schema: c15CrossNsSchema,
+			policy: `permit(principal, action, resource) when { if (if context.n > 0 then action else action) in Action::"grp" then (1 + "a") == 2 else true };`,
+			req:    types.Request{Principal: a, Action: nsAct, Resource: b, Context: ctx2},
+			ents: types.EntityMap{
+				a:     types.Entity{UID: a},
+				b:     types.Entity{UID: b},
+				nsAct: types.Entity{UID: nsAct, Parents: types.NewEntityUIDSet(grp)},
+				grp:   types.Entity{UID: grp},
+			}},
+	}
+	for _, pr := range probes {
+		var sc schema.Schema
+		if err := sc.UnmarshalCedar([]byte(pr.schema)); err != nil {
+			c.Report(vh.Finding{Class: "corpus-schema", What: pr.name + ": " + err.Error(), Check: "self-test", NoInput: true})
+			continue
+		}
+		rs, err := sc.Resolve()
+		if err != nil {
+			c.Report(vh.Finding{Class: "corpus-schema", What: pr.name + ": " + err.Error(), Check: "self-test", NoInput: true})
+			continue
+		}
+		s := &vh.C15Schema{RS: rs, Text: pr.schema}
+		var cp cedar.Policy
+		if err := cp.UnmarshalCedar([]byte(pr.policy)); err != nil {
+			c.Report(vh.Finding{Class: "corpus-parse", What: pr.name + ": " + err.Error(), Check: "self-test", NoInput: true})
+			continue
+		}
+		p := (*ast.Policy)(cp.AST())
+		env := eval.Env{Principal: pr.req.Principal, Action: pr.req.Action, Resource: pr.req.Resource, Context: pr.req.Context, Entities: pr.ents}
+		for _, strict := range []bool{true, false} {
+			vs, vp := c15Validators(s)
+			v := vp
+			if strict {
+				v = vs
+			}
+			if e1, e2 := v.Entities(pr.ents), v.Request(pr.req); e1 != nil || e2 != nil {
+				c.Report(vh.Finding{Class: "generator-nonconforming", What: fmt.Sprintf("corpus %s store/request rejected: %v / %v", pr.name, e1, e2), Check: "self-test", NoInput: true})
+			}
+			ok, pn := c15Accepts(v, p)
+			c.Res.OracleChecks++
+			if pn != nil {
+				c.Report(vh.Finding{Class: "validator-panic", What: fmt.Sprintf("corpus %s: %v", pr.name, pn), Check: "oracle", Input: c15Input(s, strict, p, pr.req, pr.ents)})
+				continue
+			}
+			c.Dist(fmt.Sprintf("corpus:%s:%s:accepted=%v", pr.name, map[bool]string{true: "strict", false: "permissive"}[strict], ok))
+			if !ok {
+				continue
+			}
+			whole := eval.PolicyToNode(p).AsIsNode()
+			if _, kind := c15Eval(whole, env); kind != "" && !c15Allowed[kind] {
+				class := c15Classify(s, strict, p, whole, env, kind)
+				c.Dist("failure:" + class)
+				c.Report(vh.Finding{Class: class, What: fmt.Sprintf("corpus %s: accepted (%s), evaluates to a %s error on a store Validator.Entities accepts: %s", pr.name, map[bool]string{true: "strict", false: "permissive"}[strict], kind, strings.TrimSpace(c15PolicyText(p))),
+					Check: "oracle", Op: "validate-then-eval", Input: c15Input(s, strict, p, pr.req, pr.ents), Expected: "ok or error in {overflow, entity, ext-*}", Actual: "err " + kind})
+			}
+		}
+	}
+}
+
+const c15ProbeSchema = `
+entity Group;
+entity Org;
+entity Color enum ["red", "green"];
+entity User in [Group] { name: String, age?: Long, mgr?: User, r: { a: Long }, col: Color } tags Long;
+entity Team in [Group, Org] { name: String, age?: String, r: { a: String } } tags Long;
+entity Doc in [Team] { owner: User, name?: String };
+action "grp";
+action "grp2" in ["grp"];
+action "view" in ["grp2"] appliesTo { principal: [User, Team], resource: [Doc, Team], context: { n: Long, s: String, u: User, us: Set<User> } };
+action "edit" appliesTo { principal: [User], resource: [Doc], context: { n: Long, s: String, u: User, us: Set<User> } };
+`
+
+// c15ModelProbes: hand-written corner cases of the entity constructs (entity LUBs with several elements, the static
+// foldings of `in` / `is`, action `in` with set operands, tag capabilities, every scope form), sent through the
+// `validate` correspondence in both modes.  Only the accept/reject decision of the Go validator is compared.
+func c15ModelProbes(c *vh.Ctx, lines *c15Lines) {
+	var sc schema.Schema
+	if err := sc.UnmarshalCedar([]byte(c15ProbeSchema)); err != nil {
+		c.Report(vh.Finding{Class: "corpus-schema", What: "probe schema: " + err.Error(), Check: "self-test", NoInput: true})
+		return
+	}
+	rs, err := sc.Resolve()
+	if err != nil {
+		c.Report(vh.Finding{Class: "corpus-schema", What: "probe schema: " + err.Error(), Check: "self-test", NoInput: true})
+		return
+	}
+	s := &vh.C15Schema{RS: rs, Text: c15ProbeSchema}
+	for n := range rs.Entities {
+		s.EntTypes = append(s.EntTypes, n)
+	}
+	sort.Slice(s.EntTypes, func(i, j int) bool { return s.EntTypes[i] < s.EntTypes[j] })
+	for n := range rs.Enums {
+		s.EnumTypes = append(s.EnumTypes, n)
+	}
+	for uid := range rs.Actions {
+		s.ActionUIDs = append(s.ActionUIDs, uid)
+	}
+	sort.Slice(s.ActionUIDs, func(i, j int) bool { return s.ActionUIDs[i].ID < s.ActionUIDs[j].ID })
+	senc := vh.EncC15Schema(s)
+	lub := `(if context.n > 0 then principal else resource)`
+	bodies := []string{
+		// action `in`: the special case and its edges
+		`action in Action::"grp"`, `action in Action::"grp2"`, `action in Action::"edit"`, `action in [Action::"grp", User::"u"]`, `action in [User::"u"]`,
+		`action in User::"u"`, `action in [action]`, `action in [action, context.u]`, `action in []`, `Action::"view" in Action::"grp"`, `Action::"grp" in Action::"view"`,
+		`Action::"view" in [Action::"edit", Action::"grp2"]`, `Action::"nope" in Action::"grp"`, `action in Action::"nope"`, `action in [Action::"nope"]`,
+		`(if context.n > 0 then action else action) in Action::"grp"`, `action in (if context.n > 0 then Action::"grp" else Action::"grp2")`,
+		`(if action in Action::"grp" then 1 else "x") == 1`, `(if action in Action::"edit" then 1 else "x") == "x"`, `(if action in [User::"u"] then 1 else "x") == "x"`,
+		// entity `in`: the type hierarchy
+		`principal in Group::"g"`, `principal in Org::"o"`, `principal in Doc::"d"`, `resource in Group::"g"`, `resource in Org::"o"`, `principal in [Group::"g", Doc::"d"]`,
+		`principal in []`, `principal in context.us`, `principal in context.u`, `context.u in principal`, `principal in context.n`, `context.n in principal`, `principal in [context.n]`,
+		`(if principal in Doc::"d" then 1 else "x") == "x"`, `(if resource in User::"u" then 1 else "x") == "x"`, `(if principal in Group::"g" then 1 else "x") == 1`,
+		lub + ` in Group::"g"`, lub + ` in Org::"o"`, `(if ` + lub + ` in User::"u" then 1 else "x") == "x"`, `principal in ` + lub, `Color::"red" in Color::"green"`, `(if Color::"red" in User::"u" then 1 else "x") == "x"`,
+		// is / is..in
+		`principal is User`, `principal is Team`, `principal is Doc`, `principal is Nope`, lub + ` is User`, lub + ` is Doc`, lub + ` is Group`,
+		`(if principal is User then 1 else "x") == 1`, `(if principal is Doc then 1 else "x") == "x"`, `(if ` + lub + ` is User then 1 else "x") == 1`, `context.n is User`,
+		`principal is User in Group::"g"`, `principal is Doc in Group::"g"`, `principal is User in [Group::"g"]`, `principal is User in context.n`, `context.n is User in Group::"g"`,
+		`(if principal is Doc in Group::"g" then 1 else "x") == "x"`,
+		// has / . on entities and entity LUBs
+		`principal has name`, `principal has nope`, `(if principal has nope then 1 else "x") == "x"`, `(if principal has name then 1 else "x") == 1`, `principal has name || 1 == "a"`,
+		`principal.name == "n"`, `principal.age == 1`, `principal has age && principal.age == 1`, `principal has age && principal.age == "s"`, `resource has age && principal.age == 1`,
+		`principal has mgr && principal.mgr.name == "n"`, `principal has mgr && principal.mgr has mgr && principal.mgr.mgr.name == "n"`, `principal has mgr && principal.mgr.mgr.name == "n"`,
+		lub + ` has name`, lub + `.name == "n"`, lub + ` has age`, lub + `.r.a == 1`, lub + `.r has a`, lub + ` has owner`, lub + `.owner == principal`, lub + ` has age && ` + lub + `.age == 1`,
+		`(if context.n > 0 then principal else context.u).name == "n"`, `(if context.n > 0 then principal else context.u) has mgr`, `action has name`, `action.name == "x"`, `principal.col has name`, `principal.col.name == "x"`,
+		`context.u.name == "n"`, `context.u has age && context.u.age > 0`, `context has u && context.u has age && context.u.age > 0`,
+		// tags
+		`principal.hasTag("k")`, `principal.hasTag("k") && principal.getTag("k") == 1`, `principal.hasTag("k") && principal.getTag("k") == "s"`, `principal.getTag("k") == 1`,
+		`principal.hasTag("k") && principal.getTag("j") == 1`, `principal.hasTag("") && principal.getTag("") == 1`, `principal.hasTag(context.s) && principal.getTag(context.s) == 1`,
+		`principal.hasTag("k") && resource.getTag("k") == 1`, `resource.hasTag("k")`, `(if resource.hasTag("k") then 1 else "x") == "x"`, `principal.hasTag(1)`, `context.n.hasTag("k")`,
+		`principal has k && principal.getTag("k") == 1`, lub + `.hasTag("k")`, lub + `.hasTag("k") && ` + lub + `.getTag("k") == 1`, `(if ` + lub + `.hasTag("k") then 1 else "x") == "x"`,
+		`action.hasTag("k")`, `principal.col.hasTag("k")`, `principal.hasTag("k") && principal has mgr && principal.mgr.getTag("k") == 1`,
+		`principal has mgr && principal.mgr.hasTag("k") && principal.mgr.getTag("k") == 1`,
+	}
+	scopes := []string{
+		`principal, action, resource`, `principal == User::"u", action, resource`, `principal == Nope::"u", action, resource`, `principal == Color::"red", action, resource`,
+		`principal == Action::"view", action, resource`, `principal == Action::"nope", action, resource`,
+		`principal in Group::"g", action, resource`, `principal in Org::"o", action, resource`, `principal in Doc::"d", action, resource`, `principal in User::"u", action, resource`,
+		`principal is User, action, resource`, `principal is Doc, action, resource`, `principal is Nope, action, resource`, `principal is User in Group::"g", action, resource`,
+		`principal is User in Org::"o", action, resource`, `principal is Team in Org::"o", action, resource`, `principal is Nope in Org::"o", action, resource`, `principal is User in Nope::"o", action, resource`,
+		`principal, action, resource in Group::"g"`, `principal, action, resource in Org::"o"`, `principal, action, resource is Doc in Team::"t"`, `principal, action, resource == Doc::"d"`,
+		`principal, action == Action::"view", resource`, `principal, action == Action::"grp", resource`, `principal, action == Action::"nope", resource`,
+		`principal, action in Action::"grp", resource`, `principal, action in Action::"grp2", resource`, `principal, action in Action::"edit", resource`, `principal, action in Action::"nope", resource`,
+		`principal, action in [Action::"grp2", Action::"edit"], resource`, `principal, action in [], resource`, `principal, action in [Action::"view", Action::"nope"], resource`,
+		`principal is Team, action == Action::"edit", resource`, `principal is Team, action in Action::"grp", resource is Team`,
+	}
+	vs, vp := c15Validators(s)
+	add := func(text string) {
+		var cp cedar.Policy
+		if err := cp.UnmarshalCedar([]byte(text)); err != nil {
+			c.Report(vh.Finding{Class: "corpus-parse", What: "probe: " + text + ": " + err.Error(), Check: "self-test", NoInput: true})
+			return
+		}
+		p := (*ast.Policy)(cp.AST())
+		for _, strict := range []bool{true, false} {
+			v := vp
+			if strict {
+				v = vs
+			}
+			ok, pn := c15Accepts(v, p)
+			if pn != nil {
+				c.Report(vh.Finding{Class: "validator-panic", What: fmt.Sprintf("probe %s: %v", text, pn), Check: "oracle", Input: c15Input(s, strict, p, types.Request{}, nil)})
+				continue
+			}
+			impl := "reject"
+			if ok {
+				impl = "accept"
+			}
+			idx := lines.add(senc, strict, p, impl, "probe")
+			c.Count("probe"+lines.b.Key(idx), true)
+			c.Dist("probe:go-" + impl)
+		}
+	}
+	for _, b := range bodies {
+		add(`permit(principal, action, resource) when { ` + b + ` };`)
+		add(`permit(principal is User, action == Action::"view", resource is Doc) when { ` + b + ` };`)
+	}
+	for _, sc := range scopes {
+		add(`permit(` + sc + `) when { principal has name };`)
+		add(`permit(` + sc + `);`)
 	}
 }
 
@@ -806,8 +1106,10 @@ func runC15(c *vh.Ctx) {
 	c.Res.Rule = "direct oracle: random schemas (entity types with required/optional attributes of every type incl. nested records, sets, entity refs, extension types; tags; acyclic memberOf; enums; namespaces; common types; actions with appliesTo lists, context records, action groups) x type-directed policies (well-typed by construction + 12 near-miss kinds) over all operators -> kept iff validate.New(schema, mode).Policy accepts (strict and permissive counted separately) -> every (action, principal type, resource type) environment x conforming requests/stores (all-optional-present, all-absent, random; asserted through Validator.Request/Entities) -> Eval(PolicyToNode(policy)); failure = error kind outside {overflow, entity, ext-*}; distinct = distinct (policy, mode, environment, store); non-trivial = policy has a condition; plus the Lean fragment model's accept/reject decision against the Go validator (op validate)"
 
 	c15Corpus(c)
+	c15EntityCorpus(c)
 
 	lines := &c15Lines{b: &vh.Batch{}}
+	c15ModelProbes(c, lines)
 	st := newC15Stats()
 	targetAccepted := c.N(3200, 100000)
 	polPerSchema := c.N(60, 120)
@@ -985,7 +1287,7 @@ func c15Fragment(c *vh.Ctx, g *vh.Gen, lines *c15Lines) {
 		for j := 0; j < per; j++ {
 			mut := ""
 			if g.R.Intn(100) < 50 {
-				mut = []string{"wrong-type", "missing-guard", "guard-misplaced", "mixed-cmp", "bad-call", "dead-branch", "bad-literal", "path-collision", "lub-drop", "untyped-call"}[g.R.Intn(10)]
+				mut = vh.C15Mutations[g.R.Intn(len(vh.C15Mutations))]
 			}
 			pol := g.C15GenPolicy(s, mut)
 			for _, strict := range []bool{true, false} {
